@@ -53,5 +53,10 @@ func (m *mockHandler) Process(ctx context.Context, _ *envoy.CheckRequest, resp *
 
 	log.Debug("process", "status", code.String())
 	resp.Status = &status.Status{Code: int32(code)}
+	if code != codes.OK {
+		// A denial must not carry the OK response (and the headers for the upstream,
+		// for instance the tokens) that a previous filter in the chain may have set.
+		resp.HttpResponse = nil
+	}
 	return nil
 }
